@@ -316,6 +316,20 @@ Definition is_builtin (v : value) : bool :=
          else builtin_class v
   end.
 
+(* get_skip_if_condition (after the F20 repair): the value is inlined (via its repr)
+   only if it passes is_builtin AND is a builtin singleton or -- for an operator other
+   than `is` / `is not` -- of exact type int, str or float:
+     is_builtin(val) and (val is None or val is True or val is False or val is ...
+                          or (op not in ('is', 'is not') and type(val) in (int, str, float))) *)
+Definition builtin_singleton (v : value) : bool :=
+  match v with VNone | VEllipsis | VBool _ => true | _ => false end.
+
+Definition plain_scalar (v : value) : bool :=
+  match v with VInt _ | VStr _ | VFloat _ => true | _ => false end.
+
+Definition inlined (op : cop) (v : value) : bool :=
+  is_builtin v && (builtin_singleton v || (negb (is_identity_op op) && plain_scalar v)).
+
 (* ------------------------------------------------------- generated expressions *)
 Inductive name :=
 | NSkip (i : nat)              (* _skip_{i} *)
@@ -522,7 +536,7 @@ Definition get_skip_if_condition (c : option cond) (var : name) : gsc * list (na
   | None => (GNone, [])
   | Some c =>
       if t_or_f (c_op c) then (GTruthy, [])
-      else if is_builtin (val (c_val c)) then (GCmp (c_op c) (repr_expr (val (c_val c))), [])
+      else if inlined (c_op c) (val (c_val c)) then (GCmp (c_op c) (repr_expr (val (c_val c))), [])
       else (GCmp (c_op c) (EFree var), [(var, c_val c)])
   end.
 
@@ -799,11 +813,18 @@ Section Reference.
     end.
 End Reference.
 
-(* Condition semantics of the generated code: compile, then evaluate the text. *)
-Definition compiled_sem (c : cond) (v : lval) : res bool :=
+(* Meaning of the generated text of condition c on value v: compile it for an
+   attribute `f` and the closure variable `_skip_value`, evaluate it in the environment
+   holding exactly what the generator provides.  (Lemma compile_cond_text_sem: the
+   meaning is the same for every attribute name, variable name, frame and closure.) *)
+Definition text_sem (c : cond) (v : lval) : res bool :=
   let ce := compile_cond c NSkipValue (S "f") in
-  if expr_bad (fst ce) then Err SyntaxError
-  else eval_test (Env [(S "f", v)] (snd ce) []) (fst ce).
+  eval_test (Env [(S "f", v)] (snd ce) []) (fst ce).
+
+(* Condition semantics of the generated code, including the compilation step. *)
+Definition compiled_sem (c : cond) (v : lval) : res bool :=
+  if expr_bad (fst (compile_cond c NSkipValue (S "f"))) then Err SyntaxError
+  else text_sem c v.
 
 (* ------------------------------------------------------------ safe region *)
 (* repr(v) is an expression denoting a value equal to v *)
@@ -815,13 +836,14 @@ Fixpoint repr_ok (v : value) : bool :=
   | _ => false
   end.
 
-(* Region on which the compiled condition provably agrees with Condition.evaluate:
-   truthy/falsy tests; values bound through a closure variable (not is_builtin);
-   inlined values whose repr denotes them, except `is`/`is not` against an inlined
-   non-singleton (the literal is another object). *)
+(* Sufficient condition under which the compiled condition provably agrees with
+   Condition.evaluate: truthy/falsy tests; values bound through a closure variable (not
+   `inlined`); inlined values whose repr denotes them, except `is`/`is not` against an
+   inlined non-singleton (the literal is another object).  Since the F20 repair EVERY
+   condition satisfies it (lemma cond_safe_all); before, the complement was the finding. *)
 Definition cond_safe (c : cond) : bool :=
   t_or_f (c_op c) ||
-  negb (is_builtin (val (c_val c))) ||
+  negb (inlined (c_op c) (val (c_val c))) ||
   (repr_ok (val (c_val c)) && (negb (is_identity_op (c_op c)) || is_singleton (val (c_val c)))).
 
 Definition ocond_safe (c : option cond) : bool :=
